@@ -413,12 +413,13 @@ class GroupBy:
         """
         return self.count_ikey()
 
-    @cached_property
+    @property
     def key_count(self):
         """
         Count of observations for each group as a Series indexed by the unique labels
         """
-        return pd.Series(self.ikey_count, self.result_index)
+        # a new Series on a copy of the counts: the caller may modify what it gets
+        return pd.Series(self.ikey_count.copy(), self.result_index)
 
     @staticmethod
     @nb.njit(nogil=True, cache=True)
@@ -494,13 +495,16 @@ class GroupBy:
             key_map = self._labels_argsort.argsort()
         else:
             key_map = None
-        return self._build_group_sorted_indexer_numba(
+        indexer = self._build_group_sorted_indexer_numba(
             group_key_list=_val_to_numpy(self.group_ikey, as_list=True),
             group_counts=group_counts,
             key_map=key_map,
         )
+        # .groups hands out views of this array: nobody may write into the cache
+        indexer.setflags(write=False)
+        return indexer
 
-    @cached_property
+    @property
     def groups(self):
         """
         Dict mapping group names to row labels.
@@ -514,6 +518,11 @@ class GroupBy:
             Dictionary with group names as keys and arrays of row indices as
             values
         """
+        # a new dict per access (of read-only views): the caller may modify what it gets
+        return dict(self._groups)
+
+    @cached_property
+    def _groups(self):
         indexer = self._group_sort_indexer
         key_count = self.ikey_count[self._labels_argsort]
         group_indexers = np.array_split(indexer, np.cumsum(key_count)[:-1])
